@@ -242,3 +242,38 @@ Qed.
 End Init.
 
 Print Assumptions code_rtinit_refines_model.
+
+(* ---------------------------------------------------------------- safety / purity corollary, in ANY memory that holds the header
+   With any fuel from 60 + 8 * length on, and whatever lies around the buffer, the run of the translated routine ends by returning
+   the model's answer: 0 exactly when rt_init accepts, its negative code otherwise.  (C01: returns for every byte string, reading
+   only the buffer; C13: the answer does not depend on the surroundings.) *)
+From LW Require Import Proofs.MemExt.
+
+Theorem code_rtinit_returns_model_anywhere M buf h rho vns rns F :
+  mem_agrees M h buf ->
+  wfbytes buf -> 0 < h -> h + zlen buf < 2 ^ 62 -> zlen buf < 2 ^ 31 ->
+  rho "max_length" = zlen buf -> rho "radiotap_header" = h ->
+  (1 <= zlen buf -> rho "radiotap_header->it_version" = znth buf 0) ->
+  rho "&radiotap_header->it_len" = h + off_ieee80211_radiotap_header__it_len ->
+  rho "&radiotap_header->it_present" = h + off_ieee80211_radiotap_header__it_present ->
+  rho "vns" = vns -> rho "&radiotap_ns" = rns -> 0 <= vns < 2 ^ 64 -> 0 <= rns < 2 ^ 64 ->
+  (60 + 8 * Z.to_nat (zlen buf) <= F)%nat ->
+  exists v rho1 tr1, exec F M rho [] body_ieee80211_radiotap_iterator_init = Returned (Some v) rho1 tr1 /\
+    match rt_init (rd_strict buf) (zlen buf) with
+    | Done (Err c) => v = c
+    | Done (Ok _) => v = 0
+    | _ => False
+    end.
+Proof.
+  intros HM Hwf Hh Hend Hlen H1 H2 H3 H4 H5 H6 H7 H8 H9 HF.
+  pose proof (wp_exec _ F _ _ _ _ _ HF
+                (code_rtinit_refines_model buf h Hwf Hh Hend Hlen rho vns rns H1 H2 H3 H4 H5 H6 H7 H8 H9)) as HQ.
+  cbv beta in HQ.
+  destruct (rt_init (rd_strict buf) (zlen buf)) as [[it | c] | k at_ | ]; try contradiction.
+  - destruct HQ as (rho1 & tr1 & HR & _). exists 0, rho1, tr1. split; [ | reflexivity].
+    apply (exec_any_surroundings M h buf F rho [] _ _ HM HR). exact I.
+  - destruct HQ as (rho1 & tr1 & HR). exists c, rho1, tr1. split; [ | reflexivity].
+    apply (exec_any_surroundings M h buf F rho [] _ _ HM HR). exact I.
+Qed.
+
+Print Assumptions code_rtinit_returns_model_anywhere.
